@@ -279,7 +279,7 @@ func (p *Pool) Run(cases <-chan []byte, sink func(c []byte, o *Obs)) {
 					}
 				}
 				mu.Lock()
-				if len(obs.Fails) > 0 && (obs.Fails[0].Sig.Symptom == "timeout" || obs.Fails[0].Sig.Symptom == "crash") {
+				if len(obs.Fails) > 0 && (obs.Fails[0].Sig.Symptom == "timeout" || obs.Fails[0].Sig.Symptom == "crash" || obs.Fails[0].Sig.Symptom == "hang") {
 					hangs++
 					if hangs == 24 {
 						fmt.Println("  NOTE: 24 cases hung or crashed their worker; the remaining cases of this run are skipped")
